@@ -299,6 +299,11 @@ fn cmd_hashes(args: &[String]) {
         CUR_INDEX.store(index, Ordering::Relaxed);
         let seed = case_seed(base, prop, index);
         let plans = props::generate(prop, &props::GenCtx { seed, index, thorough });
+        if plans.is_empty() {
+            lines.push((index, format!("{index} - - ")));
+            PROGRESS.fetch_add(1, Ordering::Relaxed);
+            continue;
+        }
         let recs = run_case(&plans);
         let out = props::check(prop, &plans, &recs);
         let hs: Vec<String> = recs.iter().map(|r| format!("{:016x}", r.trace_hash)).collect();
